@@ -573,7 +573,7 @@ EXHAUSTIVE_SCOPE = 'for every case of the write-fault sub-monitor, one fault at 
 
 def floors(ctx, agg):
     p = []
-    for k, m in (('status_runs', 150), ('pager_runs', 100), ('wait_runs', 15), ('fault_cases', 30), ('reader_gone_runs', 40)):
+    for k, m in (('status_runs', 150), ('pager_runs', 100), ('wait_runs', 12), ('fault_cases', 20), ('reader_gone_runs', 30)):
         if agg.counters.get(k, 0) < m:
             p.append('fewer than %d %s' % (m, k))
     return p
